@@ -61,41 +61,38 @@ Definition Prob_node (sl : seeds) (a : arena) (root : N) : Q := Prob sl (sem a r
 Definition seeds_valid (sl : seeds) : Prop :=
   NoDup (ids sl) /\ Forall (fun r => 0 <= sprob r /\ sprob r <= 1)%Q sl.
 
-(* Exclusive groups (annotated disjunctions), as compile_lineage_to_sdd_with_clock encodes them:
-   only the seeds the formula refers to and the other members of their groups take part; a member of an
-   exclusive group weighs p when true and 1 when false, and exactly one member of every referenced
-   group is true. *)
+(* Exclusive groups (annotated disjunctions) - the possible-worlds semantics:
+   every independent seed is a Bernoulli variable; in every exclusive group EXACTLY ONE choice is true,
+   choice r with probability sprob r.  A world is drawn by picking one choice per group and a truth value
+   per independent seed; its weight is the product; P(f) is the sum of the weights of the worlds where f holds.
+   (This is a probability distribution when every group's probabilities sum to 1: `groups_normalised`.) *)
 Definition in_group (g : N) (r : seedrec) : bool :=
   match sgroup r with Some g' => g' =? g | None => false end.
+Definition is_indep (r : seedrec) : bool := match sgroup r with None => true | Some _ => false end.
+Definition indep_seeds (sl : seeds) : seeds := filter is_indep sl.
+Definition members (sl : seeds) (g : N) : seeds := filter (in_group g) sl.
+(* the group identifiers of a snapshot, ascending, without repetition *)
+Definition group_ids (sl : seeds) : list N :=
+  sort_dedup (flat_map (fun r => match sgroup r with Some g => [g] | None => [] end) sl).
 
-Definition relevant (sl : seeds) (referenced : list N) : seeds :=
-  filter (fun r => memN (sid r) referenced
-                   || match sgroup r with
-                      | Some g => existsb (fun r' => memN (sid r') referenced && in_group g r') sl
-                      | None => false
-                      end) sl.
-
-Fixpoint psum_x (sl : seeds) (f : world -> bool) (acc : world) : Q :=
-  match sl with
-  | [] => if f acc then 1 else 0
-  | r :: rest =>
-      sprob r * psum_x rest f (sid r :: acc)
-      + (match sgroup r with Some _ => 1 | None => 1 - sprob r end) * psum_x rest f acc
+(* sum over one choice per group of gs, then continuation k on the chosen world *)
+Fixpoint csum (sl : seeds) (gs : list N) (k : world -> Q) (acc : world) : Q :=
+  match gs with
+  | [] => k acc
+  | g :: rest => fold_right (fun r s => (sprob r * csum sl rest k (sid r :: acc) + s)%Q) 0%Q (members sl g)
   end.
 
-Definition count_true (w : world) (members : list N) : nat := length (filter (fun s => memN s w) members).
+Definition ProbX (sl : seeds) (f : world -> bool) : Q :=
+  csum sl (group_ids sl) (fun acc => psum (indep_seeds sl) f acc) [].
 
-Definition groups_ok (sl : seeds) (referenced : list N) (w : world) : bool :=
-  forallb (fun r => match sgroup r with
-                    | Some g => if memN (sid r) referenced
-                                then Nat.eqb (count_true w (map sid (filter (in_group g) sl))) 1
-                                else true
-                    | None => true
-                    end) sl.
+(* P(root) for a snapshot with exclusive groups; equals Prob_node when the snapshot has no group *)
+Definition ProbX_node (sl : seeds) (a : arena) (root : N) : Q := ProbX sl (sem a root).
 
-Definition ProbX_node (sl : seeds) (a : arena) (root : N) : Q :=
-  let referenced := seeds_of a root in
-  psum_x (relevant sl referenced) (fun w => sem a root w && groups_ok sl referenced w) [].
+Definition group_total (sl : seeds) (g : N) : Q := fold_right (fun r s => (sprob r + s)%Q) 0%Q (members sl g).
+Definition groups_normalised (sl : seeds) : Prop := forall g, In g (group_ids sl) -> (group_total sl g == 1)%Q.
+Definition snapshot_valid (sl : seeds) : Prop := seeds_valid sl /\ groups_normalised sl.
+
+Definition count_true (w : world) (vars : list N) : nat := length (filter (fun s => memN s w) vars).
 
 (* a proof (set of seeds) holds in a world when all its seeds are true; a list of proofs is read as a DNF *)
 Definition holds (pr : list N) (w : world) : bool := forallb (fun s => memN s w) pr.
